@@ -93,6 +93,7 @@ def muxer_entries(fx):
 
 
 _sub_cache = {}
+ACTIVE = []       # property ids of the packs currently running, outermost first
 
 
 def compose(fx, chk, tier, tag, pid, rules, keyfilter=None, floor=None, what=None):
@@ -102,11 +103,21 @@ def compose(fx, chk, tier, tag, pid, rules, keyfilter=None, floor=None, what=Non
     import json
     import os
     import report
+    if not ACTIVE:
+        ACTIVE.append(chk.pid)
+    if pid in ACTIVE:
+        # the owning pack is further up the composition stack (it composes this one, which composes it back): its
+        # instances are reported there, not here
+        return 0
     ck = (id(fx), pid, tier)
     if ck not in _sub_cache:
         sub = report.Check(pid)
         sub.finish = lambda *a, **k: 0
-        importlib.import_module(pid.lower()).run(fx, sub, tier)
+        ACTIVE.append(pid)
+        try:
+            importlib.import_module(pid.lower()).run(fx, sub, tier)
+        finally:
+            ACTIVE.pop()
         _sub_cache[ck] = sub
     sub = _sub_cache[ck]
     known = set()
@@ -139,3 +150,20 @@ def compose(fx, chk, tier, tag, pid, rules, keyfilter=None, floor=None, what=Non
     if floor is not None:
         chk.floor(tag, what or ("instances of %s %s" % (pid, "/".join(rules))), n, floor)
     return n
+
+
+def run_sub(fx, pid, tier, fn=None):
+    """run pack `pid` (or fn(sub)) silently as a sub-pack of the current check; returns the sub Check"""
+    import importlib
+    import report
+    sub = report.Check(pid)
+    sub.finish = lambda *a, **k: 0
+    ACTIVE.append(pid)
+    try:
+        if fn is not None:
+            fn(sub)
+        else:
+            importlib.import_module(pid.lower()).run(fx, sub, tier)
+    finally:
+        ACTIVE.pop()
+    return sub
